@@ -232,6 +232,24 @@ void exec_swarm_variant(const Plan& p, Ctx& ctx, const std::string& focus) {
                                                               cached ? "the cached manifest " : "", k, (sk::now_ns() - chunks[k].deadline) / 1e9));
         }
     }
+    // every request and transfer has been answered, has timed out or has lost its manifest by now: no slot may still be counted
+    for (int i = 0; i < n; ++i) {
+        NodeProc& np = *nodes[static_cast<std::size_t>(i)];
+        if (!np.actor.alive()) continue;
+        std::size_t fetch_slots = 0, upload_slots = 0, uploads = 0, pending = 0;
+        np.run([&](en::Node& node) {
+            std::unique_lock<std::recursive_mutex> lock(node.scheduler_mutex_);
+            for (auto& [peer, cnt] : node.active_peer_requests_) fetch_slots += cnt;
+            for (auto& [peer, cnt] : node.active_uploads_per_peer_) upload_slots += cnt;
+            uploads = node.active_uploads_.size();
+            pending = node.pending_chunk_fetches_.size();
+        });
+        if (pending == 0 && fetch_slots != 0)
+            report("C24", "counter_not_zero", fmt("node %d has no pending fetch left but still counts %zu request(s) in flight to its providers", i, fetch_slots));
+        if (uploads == 0 && upload_slots != 0)
+            report("C23", "slot_leak", fmt("node %d has no upload in progress but still counts %zu upload slot(s) in use", i, upload_slots));
+        if (uploads != 0) report("C23", "upload_never_released", fmt("node %d still lists %zu upload(s) as active %.1f s after the last chunk expired", i, uploads, (sk::now_ns() - last) / 1e9));
+    }
     ctx.state(chunks.size() * 16 + static_cast<std::uint64_t>(n));
     for (auto& np : nodes) if (np) np->stop();
 }
